@@ -283,22 +283,55 @@ def grp_bitwise(a, b):
     return None
 
 def grp_cross_config(a, b):
+    """same problem, two configurations: same concentrations up to rounding when the step histories agree
+    (when they differ, an accept/reject decision fell within rounding of its threshold or rounding was
+    amplified over a long run: nothing is concluded)"""
     sa, sb = parse_solve(a.impl_out or ""), parse_solve(b.impl_out or "")
     if sa is None or sb is None:
         return None if (a.impl_out == b.impl_out) else f"one configuration failed: '{(a.impl_out or '')[:60]}' vs '{(b.impl_out or '')[:60]}'"
     if sa["status"] != sb["status"] or sa["stats"] != sb["stats"]:
-        # step histories may differ only if a decision was within rounding of its threshold: rare; flag when results differ too
-        tol = 1e-6
-    else:
-        tol = 1e-9
+        a.tags.append("history_diverged")
+        return None
     n = max(1, sa["stats"]["steps"])
     for i, (u, v) in enumerate(zip(sa["y"], sb["y"])):
         if (u != u) and (v != v):
             continue
         scale = max(abs(u), abs(v), 1e-30)
-        if abs(u - v) > tol * n * scale + 1e-14 * n:
-            return (f"configurations disagree beyond rounding: y[{i}] = {u!r} ({a.meta.get('cfg')}) vs {v!r} ({b.meta.get('cfg')}); "
-                    f"steps {sa['stats']['steps']}/{sb['stats']['steps']}")
+        if abs(u - v) > 1e-9 * n * scale + 1e-300:
+            return (f"configurations disagree beyond rounding with identical step histories: y[{i}] = {u!r} ({a.meta.get('cfg')}) vs {v!r} "
+                    f"({b.meta.get('cfg')}); steps {sa['stats']['steps']}")
+    return None
+
+def grp_trace_prefix(a, b):
+    """separate-L/U vs in-place linear algebra on the same problem: the matrix handed to the factorisation at
+    attempt k must be the same I/(gamma H_k) - J(Y_k) in both (the in-place variant regenerates it, the separate
+    variant re-bases the diagonal).  Compared attempt by attempt over the recorded prefix."""
+    if a.meta.get("integ") != 0:
+        return None
+    ta, tb = parse_trace(a.impl_out or ""), parse_trace(b.impl_out or "")
+    ea, eb = a.meta.get("elems"), b.meta.get("elems")
+    if not ta or not tb or ea is None or eb is None or len(ta[0]) % len(ea) or len(tb[0]) % len(eb):
+        return None
+    ncell = len(ta[0]) // len(ea)
+    def as_dict(m, es):
+        return {(c, e): m[c * len(es) + q] for c in range(ncell) for q, e in enumerate(es)}
+    def offdiag(d):
+        return {k: v for k, v in d.items() if k[1][0] != k[1][1]}
+    a0, b0 = as_dict(ta[0], ea), as_dict(tb[0], eb)
+    # attempts of the FIRST step only: the Jacobian part is then bit-identical to attempt 0 in each run, and the
+    # two runs can differ only through the handling of the diagonal shift
+    for k in range(min(len(ta), len(tb))):
+        da, db = as_dict(ta[k], ea), as_dict(tb[k], eb)
+        if offdiag(da) != offdiag(a0) or offdiag(db) != offdiag(b0):
+            break
+        scale = max([abs(v) for v in da.values() if v == v and abs(v) != float("inf")] + [1e-300])
+        for key, u in da.items():
+            v = db.get(key)
+            if v is None or (u != u) or (v != v):
+                continue
+            if abs(u - v) > 1e-5 * max(abs(u), abs(v)) and abs(u - v) > 1e-9 * scale:
+                return (f"attempt {k} of the first step: matrix entry {key[1]} of cell {key[0]} handed to the factorisation is {u!r} with "
+                        f"{a.meta.get('cfg')} but {v!r} with {b.meta.get('cfg')}: not the same I/(gamma*H) - df/dy")
     return None
 
 def finding_signature(pid, c, fail):
@@ -342,6 +375,32 @@ def g_solves(r, tier, env, Ls, n, **kw):
 def tag_solve_outcomes(cases):
     pass
 
+def jac_pattern(p):
+    """declared Jacobian pattern (with diagonal) in state-index coordinates"""
+    es = set((i, i) for i in range(p["ns"]))
+    for reactants, products in p["rx"]:
+        rs = [p["perm"][x] for x in reactants if x < PARAM0]
+        for j in rs:
+            for i in rs: es.add((i, j))
+            for (pid, _) in products:
+                if pid < PARAM0: es.add((p["perm"][pid], j))
+    return es
+
+def fill_closure(n, es):
+    S = set(es)
+    for i in range(n):
+        for k in range(i + 1, n):
+            if (i, k) in S:
+                for j in range(i + 1, n):
+                    if (j, i) in S: S.add((j, k))
+    return S
+
+def lu_elems(p, kind):
+    es = jac_pattern(p)
+    if kind >= 2:
+        es = fill_closure(p["ns"], es)
+    return sorted(es)
+
 def g_c05(r, tier, env, Ls):
     n = 120 if tier == "quick" else 2500
     cs = []
@@ -352,12 +411,98 @@ def g_c05(r, tier, env, Ls):
         ka = r.below(2); kb = 2 + r.below(2)
         for kind in (ka, kb):
             meta = dict(p); meta["kind"] = kind; meta["cfg"] = f"L{p['L']}/csc{p['csc']}/lu{kind}"
+            meta["elems"] = lu_elems(p, kind)
             c = Case(problem_line(p, kind=kind, trace=12), meta, "solve-trace", tags=["integ=%d" % p["integ"], "kind=%d" % kind],
-                     group=(("c05", gid), grp_cross_config))
+                     group=(("c05", gid), grp_trace_prefix))
             c.oracle = oracle_trace_pair_marker
             cs.append(c)
         gid += 1
+    # backward Euler on linear mechanisms with arbitrary (non-dyadic) h_start: independent Newton-iteration oracle
+    for _ in range(60 if tier == "quick" else 1500):
+        L = r.pick(Ls); ns = r.rng(1, 4)
+        rx = linear_mech(r, ns)
+        b = dict(env["be"]); b["h_start"] = r.pick([0.0, r.logu(1e-2, 1e1), r.logu(1e-2, 1e1)])
+        k1 = [r.logu(1e-2, 1e1) for _ in rx]
+        # separate-L/U variants only: the recorded matrix then has exactly the declared Jacobian pattern
+        p = dict(integ=1, L=L, csc=r.below(2), kind=r.below(2), ncell=1, ns=ns, perm=r.shuffle(range(ns)), rx=rx, k=k1,
+                 y=[r.logu(1e-2, 1e2) for _ in range(ns)], atol=[1e-12] * ns, rtol=1e-9, dt=r.logu(1e-1, 1e2), ptoks=G.be_param_tokens(b))
+        p["h_start"] = b["h_start"]
+        cs.append(Case(problem_line(p, clamp=0, trace=200), dict(p), "be-newton-linear", oracle=oracle_be_newton_linear,
+                       tags=["be_linear", "h_start=%s" % ("default" if b["h_start"] == 0.0 else "custom")]))
     return cs
+
+def linear_mech(r, ns):
+    rx = []
+    for _ in range(r.rng(1, 4)):
+        a = r.below(ns)
+        prods = [(r.below(ns), r.pick([1.0, 0.5, 0.25])) for _ in range(r.rng(0, 2))]
+        rx.append(([a], prods))
+    return rx
+
+def parse_trace(out):
+    import re
+    return [[unhex(v) for v in m.split()] for m in re.findall(r"\[([^\]]*)\]", out or "")]
+
+def oracle_be_newton_linear(c, out):
+    """backward Euler on a LINEAR mechanism: f(y) = A y, so Newton on y - y_n - H f(y) = 0 with the matrix
+    I/H - A converges in one iteration (the second only confirms it).  Every recorded matrix must be
+    -J + (1/H) I with -J the exact (state independent) Jacobian, the H read off the diagonal must be the
+    same for both iterations of a step, and the accepted H must add up to final_time."""
+    s = parse_solve(out) if out else None
+    if s is None:
+        return f"Solve did not return a result: '{(out or '')[:80]}'"
+    m = c.meta
+    if any(v != v or abs(v) == float("inf") for v in s["y"]):
+        return None
+    st = s["stats"]
+    if s["status"] != "Converged" or st["rej"] != 0:
+        return None      # a failed inner loop changes the schedule; only the failure-free schedule is predicted here
+    tr = parse_trace(out)
+    if len(tr) != st["steps"]:
+        return None
+    # the failure-free step-size schedule of backward_euler.inl
+    dt = m["dt"]; H = m["h_start"] if m["h_start"] != 0.0 else dt
+    sched = []; t = 0.0; nsucc = 0
+    while t < dt and len(sched) < 10000:
+        sched.append(H); t += H; nsucc += 1
+        if nsucc >= 2: nsucc = 0; H *= 2.0
+        H = min(H, dt - t)
+    if len(sched) != st["acc"]:
+        return None
+    # exact -J for cell 0 in (row, col) order of the pattern
+    ns, perm, rx = m["ns"], m["perm"], m["rx"]
+    J = {}
+    for q, (reactants, products) in enumerate(rx):
+        j = perm[reactants[0]]; k = m["k"][q]
+        J[(j, j)] = J.get((j, j), 0.0) + k
+        for (pid, yl) in products:
+            i = perm[pid]; J[(i, j)] = J.get((i, j), 0.0) - yl * k
+    pattern = sorted(set(J.keys()) | {(i, i) for i in range(ns)})
+    def close(x, y): return abs(x - y) <= 1e-6 * max(abs(x), abs(y))
+    seen = []
+    for q, mat in enumerate(tr):
+        vals = mat[:len(pattern)]
+        h = None
+        for (e, v) in zip(pattern, vals):
+            base = J.get(e, 0.0)
+            if e[0] == e[1]:
+                a = v - base
+                if a <= 0: return f"iteration {q}: matrix diagonal {e} = {v!r} is not (1/H) - df/dy"
+                hh = 1.0 / a
+                if h is not None and abs(hh - h) > 1e-6 * h: return f"iteration {q}: matrix is not I/H - df/dy for a single H"
+                h = hh if h is None else h
+            elif abs(v - base) > 1e-9 * (abs(base) + 1e-300):
+                return f"iteration {q}: matrix off-diagonal {e} = {v!r} differs from -df/dy = {base!r}"
+        if not seen or not close(seen[-1], h):
+            seen.append(h)
+    exp = []
+    for h in sched:
+        if not exp or not close(exp[-1], h):
+            exp.append(h)
+    if len(seen) != len(exp) or any(not close(x, y) for x, y in zip(seen, exp)):
+        return (f"the iteration matrices are I/H' - df/dy with H' running through {seen[:8]}, but the steps attempted have H = {exp[:8]} "
+                f"(h_start={m['h_start']!r}, time_step={dt!r})")
+    return None
 
 def oracle_trace_pair_marker(c, out):
     s = parse_solve(out) if out else None
